@@ -72,6 +72,44 @@ def make_spies(log):
                            "log_alpha": la, "log_u": float(np.log(u)), "tie": bool(undecidable or abs(np.log(u) - la) < 1e-9)}
             return out
 
+    class SpyPCN(SpyMixin, E.PCN):
+        def _spy_step(self, entry):
+            # decision test for the pCN kernel inside the sweep. The proposal is learnt by a dry run of the real step under the
+            # same scripted prior draw with a uniform that accepts everything finite, the state is restored through the public
+            # get_state/set_state, then the judged step runs with the uniform placed at the reference acceptance probability
+            # (likelihood ratio of the conditional the sampler holds now) times (1 +- 1e-6)
+            T = self.target
+            n = len(np.asarray(self.current_point).reshape(-1))
+            xi = np.random.randn(n)
+            x = np.asarray(self.current_point, dtype=float).reshape(-1).copy()
+            saved = self.get_state()
+            with patched_global(ScriptedRNG(normal=list(xi), uniform=[1e-300])):
+                super(SpyMixin, self).step()
+            xp = np.asarray(self.current_point, dtype=float).reshape(-1).copy()
+            self.set_state(saved)
+            with np.errstate(all="ignore"):
+                lp_p = float(np.asarray(T.likelihood.logd(xp)).reshape(-1)[0])
+                lp_x = float(np.asarray(T.likelihood.logd(x)).reshape(-1)[0])
+            moved = maxdiff(xp, x) > 0
+            undecidable = (not moved) or np.isposinf(lp_p) or not np.isfinite(lp_x)
+            if np.isnan(lp_p) or np.isneginf(lp_p):
+                la = -np.inf
+            else:
+                la = min(0.0, lp_p - lp_x) if not undecidable else 0.0
+            alpha = float(np.exp(la))
+            type(self).decision_mode = (type(self).decision_mode + 1) % 2
+            delta = 1e-6
+            u = alpha * (1 + delta) if type(self).decision_mode else alpha * (1 - delta)
+            if not (0 < u < 1):
+                u = 0.5
+            expect = np.log(u) <= la
+            with patched_global(ScriptedRNG(normal=list(xi), uniform=[u])):
+                out = super(SpyMixin, self).step()
+            now = np.asarray(self.current_point, dtype=float).reshape(-1)
+            entry["mh"] = {"expect_accept": bool(expect), "accepted": bool(maxdiff(now, xp) <= 1e-12 * (1 + np.max(np.abs(xp)))),
+                           "log_alpha": la, "log_u": float(np.log(u)), "tie": bool(undecidable or abs(np.log(u) - la) < 1e-9), "kernel": "pCN"}
+            return out
+
     class SpyCWMH(SpyMixin, E.CWMH):
         pass
 
@@ -84,7 +122,7 @@ def make_spies(log):
     class SpyMALA(SpyMixin, E.MALA):
         pass
 
-    return {"MH": SpyMH, "CWMH": SpyCWMH, "Conjugate": SpyConjugate, "LinearRTO": SpyLinearRTO, "MALA": SpyMALA}
+    return {"MH": SpyMH, "CWMH": SpyCWMH, "Conjugate": SpyConjugate, "LinearRTO": SpyLinearRTO, "MALA": SpyMALA, "PCN": SpyPCN}
 
 
 def make_legacy_spies(log):
@@ -110,9 +148,12 @@ def gibbs_cases(draw, tier="quick"):
     spec = draw(graphs.graph_spec(max_hypers=2, max_latents=2, max_data=2, max_dim=3, data_fams=["Gaussian", "Gaussian", "Normal"],
                                   latent_fams=["Gaussian", "Gaussian", "GMRF", "Normal", "Laplace"], hyper_fams=["Gamma"]))
     names = [n["name"] for n in spec["latents"]] + [h["name"] for h in spec["hypers"]]
-    return {"graph": spec, "prefer": {n: draw(st.sampled_from(["MH", "MH", "Conjugate", "LinearRTO", "CWMH", "MALA"])) for n in names},
+    return {"graph": spec, "prefer": {n: draw(st.sampled_from(["MH", "MH", "Conjugate", "LinearRTO", "CWMH", "MALA", "PCN", "PCN"])) for n in names},
             "nsteps": {n: draw(st.integers(1, 3)) for n in names}, "sweeps": draw(st.integers(1, 4)), "sweeps2": draw(st.integers(0, 2)),
-            "warmup": draw(st.sampled_from([0, 0, 2])), "seed": draw(st.integers(0, 10 ** 6)), "probe": draw(gen.vec(4, -0.5, 0.5))}
+            "warmup": draw(st.sampled_from([0, 0, 2])), "seed": draw(st.integers(0, 10 ** 6)), "probe": draw(gen.vec(4, -0.5, 0.5)),
+            # the dictionaries handed to the sampler are keyed by block name: their key order is free and the step counts may be
+            # given for some blocks only (default 1)
+            "dict_order": draw(st.permutations(names)), "nsteps_given": {n: draw(st.sampled_from([True, True, False])) for n in names}}
 
 
 def conditioned_joint(spec):
@@ -128,7 +169,7 @@ def block_value(spec, name):
     return v
 
 
-def check_history(c, log, order, nsteps, init, stored, J, rec, what, sweeps_done, first_point_known=True):
+def check_history(c, log, order, nsteps, init, stored, J, rec, what, sweeps_done, first_point_known=True, stored_offset=0):
     """replay the recorded block updates against the reference model"""
     model = {k: np.array(v, dtype=float).reshape(-1).copy() for k, v in init.items()}
     pos = 0
@@ -167,10 +208,12 @@ def check_history(c, log, order, nsteps, init, stored, J, rec, what, sweeps_done
                             f"{what}: an MH transition of block '{b}' in sweep {sweep} did not follow the Metropolis rule for the current conditional "
                             "(stale cached density?)", **e["mh"])
             model[b] = entries[-1]["post"].copy()
-        # stored sample of this sweep
+        # stored sample of this sweep (the first `stored_offset` sweeps are warm-up sweeps that are not returned)
+        if sweep < stored_offset:
+            continue
         for b in order:
             got = np.asarray(stored[b], dtype=float)
-            got = got.reshape(-1, got.shape[-1])[:, sweep]
+            got = got.reshape(-1, got.shape[-1])[:, sweep - stored_offset]
             require(maxdiff(got, model[b]) == 0, f"{what}: the stored sample of sweep {sweep} is not the tuple of values after that sweep (block '{b}')",
                     stored=got, after_sweep=model[b])
     require(pos == len(log), f"{what}: more block updates were made than sweeps x blocks x steps", recorded=len(log), expected=pos)
@@ -192,9 +235,13 @@ def run_hybrid(c, rec):
     spies = make_spies(log)
     init = {b: block_value(spec, b) for b in order}
 
+    dorder = [b for b in c.get("dict_order", order) if b in order] + [b for b in order if b not in c.get("dict_order", order)]
+    given = c.get("nsteps_given", {})
+    nsteps_eff = {b: (c["nsteps"][b] if given.get(b, True) else 1) for b in order}
+
     def build(assign):
         strat = {}
-        for b in order:
+        for b in dorder:
             kind = assign[b]
             cls = spies[kind]
             kw = {"initial_point": init[b].copy()}
@@ -202,10 +249,12 @@ def run_hybrid(c, rec):
                 kw["scale"] = 0.2
             if kind == "MALA":
                 kw["scale"] = 0.01
+            if kind == "PCN":
+                kw["scale"] = 0.3
             s = cls(**kw)
             s.spy_name = b
             strat[b] = s
-        return E.HybridGibbs(J, strat, num_sampling_steps={b: c["nsteps"][b] for b in order})
+        return E.HybridGibbs(J, strat, num_sampling_steps={b: c["nsteps"][b] for b in reversed(dorder) if given.get(b, True)})
     assign = {b: c["prefer"][b] for b in order}
     for b in order:  # fall back to MH where the preferred sampler does not accept the block's conditional
         if assign[b] == "CWMH" and len(init[b]) < 2:
@@ -220,7 +269,8 @@ def run_hybrid(c, rec):
         log.clear()
         G = must(lambda: build(assign), "constructing HybridGibbs with MH fall-backs")
     log.clear()
-    tags = {"interface": "HybridGibbs", "kinds": "+".join(sorted(set(assign.values()))), "blocks": len(order), "warmup": c["warmup"] > 0}
+    tags = {"interface": "HybridGibbs", "kinds": "+".join(sorted(set(assign.values()))), "blocks": len(order), "warmup": c["warmup"] > 0,
+            "dict_order": "same" if dorder == order else "permuted", "nsteps_dict": "full" if all(given.get(b, True) for b in order) else "partial"}
     if rec.classify(tags, c["sweeps"] + c["sweeps2"] >= 2 and len(hypers) >= 1):
         return
     np.random.seed(c["seed"])
@@ -236,7 +286,7 @@ def run_hybrid(c, rec):
         total = nw + n1 + n2
         for b in order:
             require(stored[b].shape[-1] == total, "HybridGibbs: number of stored samples is not the number of sweeps", got=stored[b].shape, sweeps=total)
-        final = check_history(c, log, order, c["nsteps"], init, stored, J, rec, "HybridGibbs", total)
+        final = check_history(c, log, order, nsteps_eff, init, stored, J, rec, "HybridGibbs", total)
         for b in order:
             require(maxdiff(np.asarray(G.current_samples[b], dtype=float).reshape(-1), final[b]) == 0, "HybridGibbs: current values are not those after the last sweep")
     finally:
@@ -269,14 +319,15 @@ def run_legacy(c, rec):
             kind = "MH"
             strat[b] = wrap(L.MH, b, scale=0.2)
         kinds[b] = kind
-    tags = {"interface": "Gibbs", "kinds": "+".join(sorted(set(kinds.values()))), "blocks": len(order)}
+    tags = {"interface": "Gibbs", "kinds": "+".join(sorted(set(kinds.values()))), "blocks": len(order), "warmup": c["warmup"] > 0}
     if rec.classify(tags, c["sweeps"] + c["sweeps2"] >= 2 and len(hypers) >= 1):
         return
     np.random.seed(c["seed"])
     try:
         G = must(lambda: L.Gibbs(J, strat), "constructing legacy Gibbs")
         n1, n2 = c["sweeps"], c["sweeps2"]
-        refused, S = refuses(lambda: G.sample(n1))
+        nb = c["warmup"]
+        refused, S = refuses(lambda: G.sample(n1, nb) if nb else G.sample(n1))
         if refused:
             # a block sampler that does not accept its conditional (e.g. LinearRTO on a non-linear-Gaussian block) refuses: no wrong draw
             rec.count("sampling_refused:" + type(S).__name__)
@@ -285,7 +336,9 @@ def run_legacy(c, rec):
             S = must(lambda: G.sample(n2), "legacy Gibbs second sample call")
         stored = {b: np.asarray(S[b].samples, dtype=float) for b in order}
         init = {b: np.ones(len(block_value(spec, b))) for b in order}
-        check_history(c, log, order, {b: 1 for b in order}, init, stored, J, rec, "Gibbs", n1 + n2)
+        for b in order:
+            require(stored[b].shape[-1] == n1 + n2, "Gibbs: number of returned samples is not the number of requested sweeps", got=stored[b].shape, want=n1 + n2)
+        check_history(c, log, order, {b: 1 for b in order}, init, stored, J, rec, "Gibbs", nb + n1 + n2, stored_offset=nb)
     finally:
         np.random.seed()
 
